@@ -162,7 +162,7 @@ func drawSource(r *sim.Run) *objSource {
 	if t.Chance(300) {
 		// a well-formed but unusual layout of the same file: unit transport with repaired sizes
 		if units, err := work.ParseUnits(data); err == nil {
-			ops := work.Transport(r, &units, 1+t.Draw(2), t.Chance(400), []string{"dup", "splice", "swap", "move", "largesize", "drop"})
+			ops := work.Transport(r, &units, 1+t.Draw(2), t.Chance(400), []string{"dup", "splice", "swap", "move", "largesize", "drop", "version"})
 			nd := work.Serialize(units, true)
 			okDec := false
 			func() {
